@@ -37,7 +37,8 @@ CONFIG = {
                    ' Also: a bulk stream of cheap CTL cases on 5-8 state'
                    ' structures, a deterministic block of'
                    ' next-time-over-negative/temporal formulas, very long atom'
-                   ' names sharing a stem, equal-but-distinct state objects.'),
+                   ' names sharing a stem, equal-but-distinct state objects.'
+                   ' Also (round 6): composite atom names (one name put together from two others) on three-atom formulas.'),
     'level_note': ('Trusted base: the transformations and their inverses in '
                    'vmon/props/c06.py. A finite sample of seeds/orderings; '
                    'a run in which the seeds did not change any internal '
